@@ -902,7 +902,8 @@ def position_list(n, objname, fnmap, what):
         me = kids(c)[0]
         objs = [m.get("name") or refname(m) for m in walk(me) if m.get("kind") in ("MemberExpr", "DeclRefExpr")
                 and not (refname(m) or "").startswith("operator")]
-        if me.get("name") not in fnmap or objname not in objs:
+        names = objname if isinstance(objname, (set, frozenset, list, tuple)) else (objname,)
+        if me.get("name") not in fnmap or not any(o in objs for o in names):
             raise TranslateError("%s: list element calls %s on %s" % (what, me.get("name"), objs))
         res.append((fnmap[me["name"]], kids(c)[1]))
     return res
@@ -913,20 +914,48 @@ def tr_append():
     d, body = find_method(docs, "appendTracks")
     prm = [c["name"] for c in d.get("inner", []) if c.get("kind") == "ParmVarDecl"]
     loops = [m for m in walk(body) if m.get("kind") in ("CXXForRangeStmt", "ForStmt", "WhileStmt")]
-    if len(loops) != 1 or len(prm) != 1:
-        raise TranslateError("appendTracks: expected one parameter and one loop over it")
-    pb = [m for m in walk(loops[0]) if m.get("kind") == "CXXMemberCallExpr" and kids(m)[0].get("name") in ("push_back", "emplace_back")]
-    if len(pb) != 1:
-        raise TranslateError("appendTracks: expected one push_back in the loop")
-    # the particle of the current iteration: a local of type Position declared inside the loop from the parameter
+    if len(prm) != 1:
+        raise TranslateError("appendTracks: expected one parameter")
+    # names for the phase space: the member _ps and locals bound to it (`const PhaseSpace& grid = *_ps;`)
+    psnames = {"_ps"}
+    for c in walk(body):
+        if c.get("kind") == "VarDecl" and "PhaseSpace" in ty(c) and "Position" not in ty(c) and kids(c) and \
+                any(m.get("kind") == "MemberExpr" and m.get("name") == "_ps" for m in walk(kids(c)[-1])):
+            psnames.add(c["name"])
     cand = {}
-    for c in walk(loops[0]):
-        if c.get("kind") == "VarDecl" and not c["name"].startswith("__") and "Position" in ty(c) and "vector" not in ty(c) and "iterator" not in ty(c):
-            refs = [refname(m) for m in walk(c) if m.get("kind") == "DeclRefExpr"]
-            if prm[0] in refs or any((r or "").startswith("__") for r in refs):
-                cand[c["name"]] = True
+    if not loops:
+        # std::transform(p.begin(), p.end(), std::back_inserter(physcords), [..](const Position& pos) { return Position{..}; })
+        tf = [m for m in walk(body) if m.get("kind") == "CallExpr" and kids(m) and any(x.get("kind") == "DeclRefExpr" and refname(x) == "transform" for x in walk(kids(m)[0]))]
+        if len(tf) != 1:
+            raise TranslateError("appendTracks: expected one loop over the parameter (or one std::transform of it)")
+        args = kids(tf[0])[1:]
+        lam = [m for m in walk(tf[0]) if m.get("kind") == "LambdaExpr"]
+        ends = [m.get("name") for a in args[:2] for m in walk(a) if m.get("kind") == "MemberExpr"]
+        srcs = [refname(m) for a in args[:2] for m in walk(a) if m.get("kind") == "DeclRefExpr" and refname(m) == prm[0]]
+        if len(args) != 4 or len(lam) != 1 or sorted(x for x in ends if x in ("begin", "end", "cbegin", "cend"))[:1] not in (["begin"], ["cbegin"]) \
+                or len(srcs) != 2 or not any(refname(m) == "back_inserter" for m in walk(args[2]) if m.get("kind") == "DeclRefExpr"):
+            raise TranslateError("appendTracks: std::transform is not (p.begin(), p.end(), back_inserter(..), lambda)")
+        meth = [m for m in walk(lam[0]) if m.get("kind") == "CXXMethodDecl" and m.get("name") == "operator()"]
+        lp = [c for c in kids(meth[0]) if c.get("kind") == "ParmVarDecl"] if meth else []
+        rets = [m for m in walk(meth[0]) if m.get("kind") == "ReturnStmt"] if meth else []
+        if len(lp) != 1 or "Position" not in ty(lp[0]) or len(rets) != 1:
+            raise TranslateError("appendTracks: the lambda of std::transform is not `(Position) -> one return`")
+        cand[lp[0]["name"]] = True
+        pb = rets
+    else:
+        if len(loops) != 1:
+            raise TranslateError("appendTracks: expected one parameter and one loop over it")
+        pb = [m for m in walk(loops[0]) if m.get("kind") == "CXXMemberCallExpr" and kids(m)[0].get("name") in ("push_back", "emplace_back")]
+        if len(pb) != 1:
+            raise TranslateError("appendTracks: expected one push_back in the loop")
+        # the particle of the current iteration: a local of type Position declared inside the loop from the parameter
+        for c in walk(loops[0]):
+            if c.get("kind") == "VarDecl" and not c["name"].startswith("__") and "Position" in ty(c) and "vector" not in ty(c) and "iterator" not in ty(c):
+                refs = [refname(m) for m in walk(c) if m.get("kind") == "DeclRefExpr"]
+                if prm[0] in refs or any((r or "").startswith("__") for r in refs):
+                    cand[c["name"]] = True
     ents = []
-    for f, arg in position_list(pb[0], "_ps", {"q": "AxQ", "p": "AxP"}, "appendTracks"):
+    for f, arg in position_list(pb[0], psnames, {"q": "AxQ", "p": "AxP"}, "appendTracks"):
         a = arg
         conv = None
         while a.get("kind") in WRAPPERS + ("ImplicitCastExpr", "CXXStaticCastExpr"):
